@@ -1223,6 +1223,33 @@ def make_array_body(shapes):
                     col.report('masked-array shape=%s mask=%s' % (list(shape), ''.join(map(str, mask))), fails)
                     if col.stop:
                         return
+                    # the same with the spectrum built from INTEGER-typed counts (a float Spectrum all the same): masked
+                    # entries still go into the generic file as nan, the counts come back unchanged
+                    fails = []
+                    ints = numpy.array([(7 * k + 3 * i) % 23 for i in range(n)], dtype=int).reshape(shape)
+                    mk = numpy.array(mask, dtype=bool).reshape(shape)
+                    try:
+                        fsi = dadi.Spectrum(ints, mask=mk.copy(), mask_corners=False)
+                        Numerics.array_to_file(fsi, path, precision=17, comment_lines=['i'])
+                        back = Numerics.array_from_file(path)
+                        if tuple(back.shape) != tuple(shape):
+                            fails.append('integer-built masked array shape %r' % (back.shape,))
+                        else:
+                            for idx in order:
+                                if mk[idx]:
+                                    if not math.isnan(back[idx]):
+                                        fails.append('integer-built: masked entry %s written as %r, not nan' % (
+                                            list(idx), back[idx]))
+                                        break
+                                elif back[idx] != ints[idx]:
+                                    fails.append('integer-built: unmasked entry %s %r != %r' % (list(idx), back[idx],
+                                                                                              ints[idx]))
+                                    break
+                    except Exception as e:
+                        fails.append('integer-built masked array file raised %s: %s' % (type(e).__name__, str(e)[:100]))
+                    col.report('masked-int-array shape=%s mask=%s' % (list(shape), ''.join(map(str, mask))), fails)
+                    if col.stop:
+                        return
         finally:
             shutil.rmtree(tmpdir, ignore_errors=True)
     return body
